@@ -201,6 +201,9 @@ def find_pickleable_exception(
     """
     exc_args = getattr(exc, "args", [])
     for supercls in _itermro(exc.__class__, UNWANTED_BASE_CLASSES):
+        # Mixins in the MRO are not exceptions and can't replace one.
+        if not issubclass(supercls, BaseException):
+            continue
         try:
             superexc = supercls(*exc_args)
             coder.loads(coder.dumps(superexc))
